@@ -139,7 +139,7 @@ RootPost(x, n, out, r) ==
        [] out = "some" ->
             /\ ~undefined /\ InRange(r)
             /\ (r = Zero \/ Sgn(r) = Sgn(x))
-            /\ LET t == Times(Abs(x), PowN(S, n - 1))          \* |x| * S^(n-1)  (value^(1/n) in sub-units)
+            /\ LET t == Times(Abs(x), Pow10(SD * (n - 1)))     \* |x| * S^(n-1)  (value^(1/n) in sub-units)
                IN LE(PowN(Abs(r), n), t) /\ LT(t, PowN(Plus(Abs(r), One), n))
        [] OTHER -> FALSE
 
@@ -213,11 +213,19 @@ IntPart(cp)  == LET b == Body(cp) d == FirstDot(b, 1) IN IF d = 0 THEN b ELSE Su
 HasDot(cp)   == FirstDot(Body(cp), 1) # 0
 FracPart(cp) == LET b == Body(cp) d == FirstDot(b, 1) IN IF d = 0 THEN <<>> ELSE SubSeq(b, d + 1, Len(b))
 IsNumeral(cp) ==
-  /\ IntPart(cp) # <<>> /\ AllDigits(IntPart(cp))
-  /\ (HasDot(cp) => /\ FracPart(cp) # <<>> /\ AllDigits(FracPart(cp)) /\ Len(FracPart(cp)) <= SD)
-RECURSIVE Fold(_, _)            \* value of the digit string s[1..n]
+  LET ip == IntPart(cp)
+      fp == FracPart(cp)
+  IN /\ ip # <<>> /\ AllDigits(ip)
+     /\ (HasDot(cp) => /\ fp # <<>> /\ Len(fp) <= SD /\ AllDigits(fp))
+\* value of the digit string s[1..n], folded four digits at a time (10^4 per step)
+Dv(s, i) == s[i] - 48
+RECURSIVE Fold(_, _)
 Fold(s, n) == IF n = 0 THEN Zero
-              ELSE LET p == Fold(s, n - 1) IN Plus(Times(p, I(10)), I(s[n] - 48))
+              ELSE IF n = 1 THEN I(Dv(s, 1))
+              ELSE IF n = 2 THEN I(Dv(s, 1) * 10 + Dv(s, 2))
+              ELSE IF n = 3 THEN I(Dv(s, 1) * 100 + Dv(s, 2) * 10 + Dv(s, 3))
+              ELSE LET p == Fold(s, n - 4)
+                   IN Plus(Times(p, I(10000)), I(Dv(s, n - 3) * 1000 + Dv(s, n - 2) * 100 + Dv(s, n - 1) * 10 + Dv(s, n)))
 \* exact value of a numeral in sub-units
 NumeralValue(cp) ==
   LET ip == IntPart(cp)
@@ -226,7 +234,7 @@ NumeralValue(cp) ==
   IN IF HasSign(cp) /\ cp[1] = 45 THEN Neg(mag) ELSE mag
 \* parsing accepts exactly the numerals whose value is in range, and yields that value
 ParsePost(cp, out, r) ==
-  CASE out = "ok"  -> IsNumeral(cp) /\ InRange(NumeralValue(cp)) /\ r = NumeralValue(cp)
+  CASE out = "ok"  -> IsNumeral(cp) /\ LET v == NumeralValue(cp) IN InRange(v) /\ r = v
     [] out = "err" -> ~(IsNumeral(cp) /\ InRange(NumeralValue(cp)))
     [] OTHER -> FALSE
 \* printing yields a numeral of that exact value (so parsing it gives the value back) ...
